@@ -21,7 +21,17 @@ impl std::fmt::Debug for CD { fn fmt(&self, f: &mut std::fmt::Formatter<'_>) -> 
 impl PartialEq<i32> for CD { fn eq(&self, o: &i32) -> bool { self.0 == *o } }
 impl PartialOrd<i32> for CD { fn partial_cmp(&self, o: &i32) -> Option<std::cmp::Ordering> { self.0.partial_cmp(o) } }
 #[derive(Debug, Clone)] struct H { v: i32 }
-impl H { fn bump(&self) -> i32 { METH.fetch_add(1, SeqCst); self.v } fn add(&self, k: i32) -> i32 { self.v + k } }
+impl H { fn bump(&self) -> i32 { METH.fetch_add(1, SeqCst); self.v } fn add(&self, k: i32) -> i32 { self.v + k }
+  async fn abump(&self) -> i32 { METH.fetch_add(1, SeqCst); self.v } }
+/// a minimal executor for the `.await` cells (the futures here are always ready)
+fn block_on<F: std::future::Future>(f: F) -> F::Output {
+    use std::task::{Context, Poll, RawWaker, RawWakerVTable, Waker};
+    fn cl(_: *const ()) -> RawWaker { RawWaker::new(std::ptr::null(), &VT) } fn no(_: *const ()) {}
+    static VT: RawWakerVTable = RawWakerVTable::new(cl, no, no, no);
+    let w = unsafe { Waker::from_raw(RawWaker::new(std::ptr::null(), &VT)) };
+    let mut f = Box::pin(f);
+    loop { if let Poll::Ready(v) = f.as_mut().poll(&mut Context::from_waker(&w)) { return v; } }
+}
 #[derive(Debug, Clone)] struct W { h: H, c: CD, n: i32, xs: Vec<CD>, oc: Option<CD>, m: BTreeMap<String, i32>, s: String }
 #[derive(Debug, Clone)] struct P2 { a: i32, b: i32 }
 const HI5: i32 = 5;
@@ -99,6 +109,20 @@ OPERAND_CASES = [("n: > op(3)", "n: > op(7)", "operand"), ("n: == op(5)", "n: ==
                  ("h.add(op(1)): 6", "h.add(op(1)): 7", "chain-arg"), ("xs[op(0)]: == 1", "xs[op(0)]: == 2", "chain-arg"),
                  ("h.add(op(1)): > op(5)", "h.add(op(1)): > op(6)", "chain-arg+operand")]
 
+# the same chain / operand written several times in ONE pattern: every written occurrence is evaluated on its own (a stateful call
+# - a queue's pop, a channel's recv, a counter - gives each pattern its own result); passing path only (the failing path of a
+# chain is the recorded finding).  (pattern, async?, expected calls of the counting method, expected evaluations of op(..))
+REPEAT_CASES = [
+    ("W { h.bump(): 5, h.bump(): > 3, .. }", False), ("_ { h.bump(): 5, h.bump(): 5, h.bump(): 1..=9, .. }", False),
+    ("W { h.bump(): 5, n: 5, h.bump(): == 5, .. }", False), ("W { h.abump().await: 5, .. }", True),
+    ("W { h.abump().await: 5, h.abump().await: > 3, .. }", True), ("_ { h.abump().await: 5, h.abump().await: 5, h.abump().await: 1..=9, .. }", True),
+    ("W { h.abump().await: 5, n: 5, h.abump().await: |cl_x| cl_x > 3, .. }", True),
+    ("W { n: > op(3), c: > op(3), .. }", False), ("W { n: == op(5), n: == op(5), .. }", False),
+    ("W { h.add(op(1)): 6, h.add(op(1)): > 5, .. }", False), ("_ { h.add(op(1)): 6, h.add(op(1)): 6, .. }", False),
+    ("W { xs[op(0)]: == 1, xs[op(0)]: < 2, .. }", False), ("W { m: #{ op(\"a\".to_string()): 1, op(\"a\".to_string()): > 0, .. }, .. }", False),
+    ("W { s: =~ op(\"^he\"), s: =~ op(\"^he\"), .. }", False),
+]
+
 NO_MODEL = {"range_const_hi": "range", "range_assoc_const": "range"}
 
 CLASS_TEXT = {
@@ -153,8 +177,13 @@ def run(res):
         for outcome, pat in (("pass", pp), ("fail", pf)):
             oper_cases.append({"id": "oper_%d_%s" % (len(oper_cases), outcome), "where": where, "outcome": outcome, "pattern": "W { %s, .. }" % pat,
                                "body": "let v = w(); assert_struct!(v, W { %s, .. });" % pat})
+    rep_cases = []
+    for pat, is_async in REPEAT_CASES:
+        call = "assert_struct!(v, %s);" % pat
+        rep_cases.append({"id": "rep_%d" % len(rep_cases), "pattern": pat, "outcome": "pass",
+                          "body": "let v = w(); " + ("block_on(async { %s });" % call if is_async else call)})
     src = (e2e.PRELUDE + DECLS + "fn main() { std::panic::set_hook(Box::new(|_| {}));\n" +
-           "\n".join("    counted(\"%s\", || { %s });" % (c["id"], c["body"]) for c in cases + oper_cases) + "\n}\n")
+           "\n".join("    counted(\"%s\", || { %s });" % (c["id"], c["body"]) for c in cases + oper_cases + rep_cases) + "\n}\n")
     out = e2e.compile_many([src], run=True, tag="c08")
     e2e.cleanup("c08")
     if not out[0]["compiled"]:
@@ -252,6 +281,20 @@ def run(res):
                 res.violation("failing-input", "the user expression(s) wrapped in op(..) in `%s` are evaluated %d time(s) on the %sing path (written: %d)"
                               % (c["pattern"], r["oper"], c["outcome"], n_ops), {"program_body": c["body"], "real": r})
     res.streams["operands"] = {"cases": len(oper_cases), "failures": oper_bad}
+    rep_bad = 0
+    for c in rep_cases:
+        r = real.get(c["id"])
+        if r is None or r["verdict"] != "pass":
+            raise vlib.CheckError("repeated-chain case %s: %r (intended pass)" % (c["pattern"], r))
+        w_meth = c["pattern"].count("bump()")
+        w_oper = c["pattern"].count("op(")
+        if r["meth"] != w_meth or r["oper"] != w_oper:
+            rep_bad += 1
+            failing += 1
+            if rep_bad <= 3:
+                res.violation("failing-input", "`%s` writes the counting method %d time(s) and op(..) %d time(s); on the passing path they are "
+                              "evaluated %d and %d time(s)" % (c["pattern"], w_meth, w_oper, r["meth"], r["oper"]), {"program_body": c["body"], "real": r})
+    res.streams["repeated-chains"] = {"cases": len(rep_cases), "failures": rep_bad}
     for cls in sorted(known_seen):
         if cls in kf:
             res.known.append(CLASS_TEXT[cls])
